@@ -100,9 +100,21 @@ func runC07(c *Ctx) {
 			c.bad("R1", name+" examines the decoding error", pos(mk), "no branch on makePacket's error: a packet that failed to decode is dispatched")
 			continue
 		}
+		// what the bad-packet branch knows: the error it was entered on is not nil
+		seed := func() {
+			if errNonNil != nil && (errNonNil == bad || errNonNil.Dominates(bad)) {
+				f := pathFacts{}
+				for v := range vals {
+					f[v] = clsNonNil
+				}
+				seedFacts = f
+			}
+		}
+		seed()
 		dispatched := reachFromBlock(bad, isSend, nil)
 		c.check(!dispatched, "R1", name+" never dispatches a packet that failed to decode", p.Pos(bad.Instrs[0].Pos()),
 			"the bad-packet branch leaves the receive loop without handing the packet on", "after makePacket failed the packet can still be sent to the dispatcher: a truncated request is acted upon, an unknown type byte dispatches a nil packet")
+		seed()
 		noClose := reachFromBlock(bad, func(in ssa.Instruction) bool {
 			return isReturn(in) || (isSend(in))
 		}, isClose)
@@ -123,6 +135,19 @@ func runC07(c *Ctx) {
 					}
 				}
 			}
+			if !retErr {
+				// the return may lie behind a join (the receive step inlined back from a helper): every return that
+				// the bad-packet branch can reach gives a non-nil error, and it cannot reach the next receive
+				seed()
+				retErr = !reachFromBlock(bad, func(in ssa.Instruction) bool {
+					if r, ok := in.(*ssa.Return); ok && len(r.Results) > 0 {
+						cls, _ := classify(r.Results[0], reachEnv, 0)
+						return cls != clsNonNil
+					}
+					cc := callOf(in)
+					return cc != nil && cc.StaticCallee() != nil && cc.StaticCallee() == mk.Call.StaticCallee()
+				}, nil)
+			}
 			c.check(retErr, "R2", name+" reports the decoding error", p.Pos(bad.Instrs[0].Pos()), "returns the error", "the decoding error is not returned")
 		} else {
 			// Server.Serve returns the err variable; on the bad path nothing overwrites it with nil
@@ -140,6 +165,7 @@ func runC07(c *Ctx) {
 					}
 				}
 			}
+			seed()
 			nilStore := reachFromBlock(bad, func(in ssa.Instruction) bool {
 				st, ok := in.(*ssa.Store)
 				return ok && isNilConst(st.Val) && typeName(st.Val.Type()) == "error"
